@@ -108,7 +108,8 @@ def run_case(case, rec, jax, jnp, ds):
   rec.traces = []
   X, metrics = ds.matrix_inverse_pth_root(
       Aj, p, num_iters=100, ridge_epsilon=case["eps"], error_tolerance=1e-6,
-      relative_matrix_epsilon=case["relative"], padding_start=padding_start, eigh=case["eigh"])
+      relative_matrix_epsilon=case["relative"], padding_start=padding_start, eigh=case["eigh"],
+      lobpcg_topk_precondition=case.get("lobpcg", 0))
   traces = rec.traces
   rec.traces = []
   out = dict(case=case, A=mat(A), X=mat(X), N=N, s=s, lam=[float(x) for x in lam],
